@@ -353,7 +353,7 @@ func firedList(m map[string]bool) []string {
 // sets one attribute (updaters), so that the judge can tell which registration decided an operation.
 func (r *Runner) register(p Prim, side int, e *Event) *Resp {
 	r.nativeSeen = true
-	return guard(func() *Resp {
+	return guarded(func() *Resp {
 		n := p.Native(e.C)
 		text := string(intsToBytes(e.Text))
 		id := e.ID
